@@ -35,8 +35,13 @@ def snapshot():
     }
 
 
+def _fmt_float(x):  # a user-installed print formatter (identity is part of the state)
+    return f"{x:.2e}"
+
+
 CONFIGS = {
     "default": {},
+    "formatter": {"print": {"formatter": {"float_kind": _fmt_float}, "linewidth": 60}},
     "raise+error": {"seterr": {"all": "raise"}, "warnings": "error"},
     "warn+ignore": {"seterr": {"all": "warn"}, "warnings": "ignore"},
     "ignore+print": {"seterr": {"all": "ignore"}, "print": {"precision": 3, "suppress": True}},
@@ -139,6 +144,7 @@ EVENTS = {
     "obj.__array__/asanyarray": lambda: (np.asanyarray(_o4tau()), np.asarray(_o3())),
     "pickle(obj)": lambda: pickle.loads(pickle.dumps(_o4tau())),
     "repr(obj)": lambda: (repr(_o4()), repr(_n4()), repr(_a4())),
+    "repr/str(large arrays)": lambda: (repr(_n_large()), str(_n_large()), repr(_n_large().to_rhophietatau()), repr(vector.Array([{"x": float(i), "y": 2.0 * i, "z": -1.0 * i, "t": 10.0 + i} for i in range(12)])), repr(_n_large()[:0])),
     # the same *numbers* in two different coordinate systems (their coordinate NamedTuples compare equal although they are of
     # different kinds): a value-keyed cache anywhere in the object backend makes the second of these depend on the first
     "obj(x=1,y=2,z=3,t=4) forms": lambda: _same_numbers(vector.obj(x=1.0, y=2.0, z=3.0, t=4.0)),
@@ -185,6 +191,11 @@ REGISTRY = {"register_awkward()", "register_numba()"}
 def _same_numbers(o):
     return (np.asarray(o), np.asanyarray(o), o.to_xyzt(), o.to_rhophietatau(), o.x, o.rho, o.z, o.eta, o.theta, o.t, o.tau, o.mag, -o, o * 2, o.rotateZ(0.5), o.to_Vector3D(), o.to_Vector2D(),
             repr(o), pickle.loads(pickle.dumps(o)), o == o, o.isclose(o))
+
+
+def _n_large():
+    k = np.arange(12, dtype=np.float64)
+    return vector.array({"px": 1.5 + k, "py": 0.75 - k, "pz": 0.875 * k, "E": 20.0 + k})
 
 
 def _inplace():
